@@ -21,7 +21,7 @@ typedef struct pnode {
   int state; /* 0 fresh/in use, 1 reclaimed (in free list) */
   struct pnode* free_next;
 } pnode_t;
-static int far_nodes;
+static int far_nodes, free_mode;
 static pnode_t* free_arr[128]; /* reclaimed nodes; reuse takes the node that was retired most recently two times out of three */
 static int nfree_arr, reuse_ctr;
 static pnode_t* free_list;
@@ -32,6 +32,14 @@ static int npushed, npopped;
 static NS void reclaim_cb(void* gc_data, hazard_node_t* h) {
   (void)gc_data;
   pnode_t* p = (pnode_t*)h; /* hazard node is the first member */
+  sim_tso_sync();           /* this helper writes the node directly */
+  if (free_mode) {
+    /* the node goes back to the allocator, which never hands the address out again: any later access by the
+     * queue code is a dereference of a reclaimed node (MEM-use-after-free), a second callback a double free */
+    reclaimed_total++;
+    free(p);
+    return;
+  }
   if (p->state == 1) sim_violation("C13-reclaimed-twice", "node %p handed to the reclamation callback twice", (void*)p);
   p->state = 1;
   /* poison the payload: a thread that still dereferences this node reads garbage pointers */
@@ -41,6 +49,7 @@ static NS void reclaim_cb(void* gc_data, hazard_node_t* h) {
 }
 static NS mpmc_fifo_node_t* get_node(void) {
   pnode_t* p;
+  sim_tso_sync();
   if (nfree_arr) {
     /* a scan hands the most recently retired node to the callback first, so it sits at the bottom */
     int k = (reuse_ctr++ % 3 == 2) ? nfree_arr - 1 : 0;
@@ -123,7 +132,10 @@ void h_run(void) {
     if (warmup[t] < 0) warmup[t] = 0;
   }
   far_nodes = wl_pct(50);
-  sim_describe("threads=%d ops=%d pushes=%d far_apart_nodes=%d preempt=1/%d", nth, total, pushes, far_nodes, c.preempt_inv);
+  free_mode = wl_pct(35);
+  const int tso = wl_pct(40);
+  if (tso) sim_tso_enable_plain();
+  sim_describe("threads=%d ops=%d pushes=%d far_apart_nodes=%d reclaim=%s tso=%d preempt=1/%d", nth, total, pushes, far_nodes, free_mode ? "free" : "reuse", tso, c.preempt_inv);
   if (nth >= 2 && total >= 3) sim_nontrivial();
   hist_reset(M_FIFO, 0);
   mpmc_fifo_init(&fifo, get_node());
